@@ -464,8 +464,8 @@ func (m *Model) Apply(c Call, o Obs) []Hit {
 		hits = m.applySeekS(c, o)
 	case "job":
 		hits = m.applyJob(c, o)
-	case "tick":
-		// nothing
+	case "tick", "acknack", "updateSub", "modifyPush", "updateTopic":
+		// nothing (only used by the fault-enumeration check, which does not consult the model's verdicts)
 	case "getTopic", "getSub", "getSnap", "listTopics", "listSubs", "listSnaps", "listTopicSubs", "delSnap":
 		hits = m.applyResource(c, o)
 	default:
